@@ -111,3 +111,167 @@ func HarnessC03Vacuity() {
 		vndAssert(false, "vacuity")
 	}
 }
+
+// ---- C03.parse: ParseTraceState on arbitrary bytes (maxListMembers scaled by a source transform)
+
+func refMemberOK(m member) bool { return vndAnd(refKey(m.Key), refValue(m.Value)) }
+
+func checkParsed(ts TraceState, tag string) {
+	vndAssert(len(ts.list) <= maxListMembers, tag+"-at-most-max-members")
+	for i := range ts.list {
+		vndAssert(refMemberOK(ts.list[i]), tag+"-member-conforms-to-grammar")
+		for j := 0; j < i; j++ {
+			vndAssert(ts.list[i].Key != ts.list[j].Key, tag+"-keys-unique")
+		}
+	}
+}
+
+func sameList(a, b []member) bool {
+	if len(a) != len(b) {
+		return false
+	}
+	ok := true
+	for i := range a {
+		ok = vndAnd(ok, vndAnd(a[i].Key == b[i].Key, a[i].Value == b[i].Value))
+	}
+	return ok
+}
+
+func HarnessC03Parse() {
+	s := vndString(vndParam("N", 5))
+	ts, err := ParseTraceState(s)
+	if err != nil {
+		vndReach("reject")
+		vndAssert(len(ts.list) == 0, "parse-error-yields-empty")
+		return
+	}
+	if len(ts.list) > 0 {
+		vndReach("accept")
+	}
+	if len(ts.list) > 1 {
+		vndReach("accept-two")
+	}
+	checkParsed(ts, "parse")
+	// re-serialise and re-parse: same members in the same order
+	out := ts.String()
+	ts2, err2 := ParseTraceState(out)
+	vndAssert(err2 == nil, "parse-string-reparses")
+	if err2 == nil {
+		vndAssert(sameList(ts.list, ts2.list), "parse-string-roundtrip")
+	}
+}
+
+// structured input: 1..K members from symbolic pieces; valid pieces must be accepted
+func HarnessC03ParseStructured() {
+	k := 1 + vndChoice(vndParam("K", 3)+1) // up to max+1 members
+	var ms []member
+	hdr := ""
+	pre := []string{"", " ", "\t "}
+	post := []string{"", "\t", " \t"}
+	for i := 0; i < k; i++ {
+		kl := 1
+		if i == 0 {
+			kl = 1 + vndChoice(2)
+		}
+		key := vndStringN(kl)
+		val := vndStringN(1)
+		vndAssume(refKey(key))
+		vndAssume(refValue(val))
+		for j := range ms {
+			vndAssume(key != ms[j].Key)
+		}
+		ms = append(ms, member{key, val})
+		if i > 0 {
+			hdr += ","
+		}
+		o := vndChoice(3)
+		hdr += pre[o] + key + "=" + val + post[o]
+	}
+	ts, err := ParseTraceState(hdr)
+	if k > maxListMembers {
+		vndReach("too-many")
+		vndAssert(err != nil, "more-than-max-members-rejected")
+		return
+	}
+	vndReach("accepted")
+	vndAssert(err == nil, "valid-header-accepted")
+	if err == nil {
+		vndAssert(sameList(ts.list, ms), "valid-header-members-in-order")
+	}
+}
+
+// ---- C03.edit: one Insert / Delete from an arbitrary valid TraceState
+
+func arbitraryValidTS(n int) TraceState {
+	var ms []member
+	for i := 0; i < n; i++ {
+		key := vndStringN(1)
+		val := vndStringN(1)
+		vndAssume(refKey(key))
+		vndAssume(refValue(val))
+		for j := range ms {
+			vndAssume(key != ms[j].Key)
+		}
+		ms = append(ms, member{key, val})
+	}
+	return TraceState{list: ms}
+}
+
+func HarnessC03Insert() {
+	n := vndChoice(maxListMembers + 1)
+	ts := arbitraryValidTS(n)
+	before := append([]member(nil), ts.list...)
+	k := vndString(vndParam("KN", 2))
+	v := vndString(vndParam("VN", 1))
+	got, err := ts.Insert(k, v)
+	// the receiver is never modified
+	vndAssert(sameList(ts.list, before), "insert-receiver-unchanged")
+	valid := vndAnd(refKey(k), refValue(v))
+	vndAssert((err == nil) == valid, "insert-error-iff-invalid-key-or-value")
+	if err != nil {
+		vndReach("rejected")
+		vndAssert(sameList(got.list, before), "insert-error-returns-original")
+		return
+	}
+	// model: (k,v) first, then the old members without k, cut on the right to max
+	want := []member{{k, v}}
+	updated := false
+	for i := range before {
+		if before[i].Key == k {
+			updated = true
+			continue
+		}
+		want = append(want, before[i])
+	}
+	if len(want) > maxListMembers {
+		want = want[:maxListMembers]
+		vndReach("overflow")
+	}
+	if updated {
+		vndReach("update")
+	} else {
+		vndReach("insert")
+	}
+	vndAssert(sameList(got.list, want), "insert-newest-first-drop-rightmost")
+	checkParsed(got, "insert")
+}
+
+func HarnessC03Delete() {
+	n := vndChoice(maxListMembers + 1)
+	ts := arbitraryValidTS(n)
+	before := append([]member(nil), ts.list...)
+	k := vndString(2)
+	got := ts.Delete(k)
+	vndAssert(sameList(ts.list, before), "delete-receiver-unchanged")
+	var want []member
+	for i := range before {
+		if before[i].Key == k {
+			vndReach("deleted")
+			continue
+		}
+		want = append(want, before[i])
+	}
+	vndAssert(sameList(got.list, want), "delete-removes-exactly-key")
+	checkParsed(got, "delete")
+	vndAssert(got.Get(k) == "", "delete-get-empty")
+}
